@@ -240,12 +240,14 @@ Definition MOD_BASKET : acct := 1008.
 Definition MOD_MINT : acct := 1009.
 Definition std_is_module (a : acct) : bool := 1000 <=? a.
 
-(* x/multistaking/keeper/msg_server.go ClaimUndelegation (unchanged tree): found, matured, pay msg.Sender *)
+(* x/multistaking/keeper/msg_server.go ClaimUndelegation: found, owner = msg.Sender (since commit
+   86992ce), matured, pay msg.Sender *)
 Definition h_claim_undelegation : handler :=
-  [ILoad "undelegation" 0; IRequire 0; IPayClaim MOD_MULTISTAKING (ESigner 0)].
-(* the same with the owner comparison the fix adds *)
-Definition h_claim_undelegation_fixed : handler :=
   [ILoad "undelegation" 0; IGuardOwner (ESigner 0); IRequire 0; IPayClaim MOD_MULTISTAKING (ESigner 0)].
+(* the variant WITHOUT the owner comparison (the code before 86992ce); kept to show that the
+   comparison is what the theorem rests on, and as the model a regression would correspond to *)
+Definition h_claim_undelegation_unguarded : handler :=
+  [ILoad "undelegation" 0; IRequire 0; IPayClaim MOD_MULTISTAKING (ESigner 0)].
 (* ClaimMaturedUndelegations, one iteration: skips records of other owners *)
 Definition h_claim_matured_one : handler :=
   [ILoad "undelegation" 0; IGuardOwner (ESigner 0); IRequire 0; IPayClaim MOD_MULTISTAKING (ESigner 0)].
